@@ -143,6 +143,34 @@ def main():
         except Exception as e:  # noqa: BLE001
             ok, why = False, f'{type(e).__name__} instead of FlamaException'
         run.case(f'random attribute: {what} is a library error', what, ok, why)
+    # the random source is adversarial: every value random.uniform / randint / choice may return is a possible seed outcome,
+    # so the extremes of each range (and points next to them) are substituted for the draw
+    from flamapy.metamodels.fm_metamodel.operations import fm_generate_random_attribute as gra
+    rng = pyrandom.Random(run.seed if hasattr(run, 'seed') else 0)
+    real_uniform, real_randint, real_choice = pyrandom.uniform, pyrandom.randint, pyrandom.choice
+    n_ranges = 150 if quick else 3000
+    try:
+        for i in range(n_ranges):
+            da, db = rng.randint(0, 4), rng.randint(0, 4)
+            a = round(rng.uniform(-50, 50), da) if da else rng.randint(-50, 50)
+            b = a + (round(rng.uniform(0, 20), db) if db else rng.randint(0, 20))
+            b = round(b, max(da, db)) if (da or db) else b
+            if not (isinstance(a, float) or isinstance(b, float)):
+                b = float(b) if i % 2 else b
+            rg = Range(a, b)
+            for frac in (0.0, 1.0, 0.999999, 0.5, 0.000001, rng.random()):
+                pyrandom.uniform = lambda lo, hi, _f=frac: lo + (hi - lo) * _f
+                pyrandom.randint = lambda lo, hi, _f=frac: lo + int((hi - lo) * _f)
+                pyrandom.choice = lambda seq: seq[0]
+                try:
+                    v = gra.get_random_value_from_ranges([rg])
+                    ok = a <= v <= b and (isinstance(v, int) if isinstance(a, int) and isinstance(b, int) else True)
+                    why = f'draw at fraction {frac} of Range({a!r}, {b!r}) gives {v!r}'
+                except Exception as e:  # noqa: BLE001
+                    ok, why = False, f'Range({a!r}, {b!r}): {type(e).__name__}: {e}'
+                run.case('random attribute: every possible draw lies inside the range', f'{a!r}:{b!r}:{frac}', ok, why)
+    finally:
+        pyrandom.uniform, pyrandom.randint, pyrandom.choice = real_uniform, real_randint, real_choice
     # float bounds printed in exponent form (fixed defect: must stay inside the range)
     m = M.build_model(pool[3])
     op = GenerateRandomAttribute()
